@@ -304,8 +304,12 @@ pub fn cases(tier: &str, seed: u64) -> Vec<Case> {
             let tail_after_name = matches!(KIND_NAMES[kind], "RRSIG" | "NSEC" | "SVCB" | "HTTPS" | "IPSECKEY");
             for rep in 0..(if thorough { 40 } else if tail_after_name { 24 } else { 4 }) {
                 g2.share = 7;
+                // two repetitions per type in which every name is built from one label and the encoder points whenever it can:
+                // each embedded name is met as a pointer, whatever the other draws happen to share
+                let forced = rep == 1 || rep == 3;
+                let saved_pool = if forced { g2.share = 8; Some(std::mem::replace(&mut g2.pool, vec![b"same".to_vec()])) } else { None };
                 let mut rd = g2.rdata(kind);
-                if matches!(rd, rdata::RData::OPT(_)) { continue; }
+                if matches!(rd, rdata::RData::OPT(_)) { if let Some(pool) = saved_pool { g2.pool = pool; } continue; }
                 if rep % 2 == 0 {
                     match &mut rd {
                         rdata::RData::RRSIG(x) => { x.signature = vec![0xABu8; rep / 2 % 4].into(); }
@@ -315,9 +319,10 @@ pub fn cases(tier: &str, seed: u64) -> Vec<Case> {
                 }
                 let first = ResourceRecord::new(g2.name(), CLASS::IN, 1, rdata::RData::NS(rdata::NS(g2.name())));
                 let rr = ResourceRecord::new(g2.name(), CLASS::IN, 5, rd);
+                if let Some(pool) = saved_pool { g2.pool = pool; }
                 let ptxt = format!("P 7 32768 0 0 o0 0 2 {} {} 0 0", text::rr(&first), text::rr(&rr));
-                let (bytes, _) = refenc::encode_packet(&ptxt, Compress::Random(&mut r2, 7), false, None);
-                if bytes.len() > 700 { continue; }
+                let (bytes, _) = refenc::encode_packet(&ptxt, Compress::Random(&mut r2, if forced { 8 } else { 7 }), false, None);
+                if bytes.len() > 700 && !forced || bytes.len() > 3000 { continue; }
                 v.push(parse_case(&bytes, "reference-compressed"));
                 if rep < 2 { for cut in 12..bytes.len() { v.push(parse_case(&bytes[..cut], "reference-compressed-cut")); } }
             }
